@@ -274,7 +274,7 @@ class C05(Prop):
         ("lib/python/pyflyby/_autoimp.py", "find_missing_imports"),
         ("lib/python/pyflyby/_idents.py", "DottedIdentifier"),
     ]
-    quick_cases = 2500
+    quick_cases = 2000
     thorough_cases = 60000
     quick_deadline_s = 55
     thorough_deadline_s = 600
